@@ -43,6 +43,19 @@ impl Op {
         direction: Direction,
     ) -> usize {
         let forward = direction == Direction::Fwd;
+        #[cfg(geodesy_verif)]
+        crate::verif::emit(
+            "dispatch",
+            vec![
+                ("id", format!("{:?}", self.id)),
+                ("name", self.params.name.clone()),
+                ("def", self.descriptor.definition.clone()),
+                ("req", if forward { "F" } else { "I" }.to_string()),
+                ("inverted", self.descriptor.inverted.to_string()),
+                ("invertible", self.descriptor.invertible.to_string()),
+                ("n", operands.len().to_string()),
+            ],
+        );
         // Short form of (inverted && !forward) || (forward && !inverted)
         if self.descriptor.inverted != forward {
             return self.descriptor.fwd.0(self, ctx, operands);
@@ -109,12 +122,22 @@ impl Op {
 
         // A pipeline?
         if parameters.definition.is_pipeline() {
+            #[cfg(geodesy_verif)]
+            crate::verif::emit(
+                "resolve",
+                vec![("name", name.clone()), ("branch", "pipeline".to_string())],
+            );
             return super::inner_op::pipeline::new(&parameters, ctx);
         }
 
         // A user defined operator?
         if !name.is_resource_name() {
             if let Ok(constructor) = ctx.get_op(&name) {
+                #[cfg(geodesy_verif)]
+                crate::verif::emit(
+                    "resolve",
+                    vec![("name", name.clone()), ("branch", "userop".to_string())],
+                );
                 return constructor.0(&parameters, ctx)?.handle_op_inversion();
             }
         }
@@ -125,6 +148,15 @@ impl Op {
             // pathological cases)
             let def = &parameters.definition;
             let inverted = def.contains(" inv ") || def.ends_with(" inv");
+            #[cfg(geodesy_verif)]
+            crate::verif::emit(
+                "resolve",
+                vec![
+                    ("name", name.clone()),
+                    ("branch", "macro".to_string()),
+                    ("inverted", inverted.to_string()),
+                ],
+            );
             let mut next_param = parameters.next(def);
             next_param.definition = macro_definition;
             return Op::op(next_param, ctx)?.handle_inversion(inverted);
@@ -132,9 +164,19 @@ impl Op {
 
         // A built in operator?
         if let Ok(constructor) = super::inner_op::builtin(&name) {
+            #[cfg(geodesy_verif)]
+            crate::verif::emit(
+                "resolve",
+                vec![("name", name.clone()), ("branch", "builtin".to_string())],
+            );
             return constructor.0(&parameters, ctx)?.handle_op_inversion();
         }
 
+        #[cfg(geodesy_verif)]
+        crate::verif::emit(
+            "resolve",
+            vec![("name", name.clone()), ("branch", "notfound".to_string())],
+        );
         Err(Error::NotFound(
             name,
             ": ".to_string() + &parameters.definition,
